@@ -33,6 +33,7 @@ type repoExp struct {
 	Wt      map[string][]string `json:"wt"`
 	St      map[string][]string `json:"st"`
 	Skip    map[string]bool     `json:"skip"`
+	NoDir   bool                `json:"nodir"`
 }
 
 type repoRow struct {
@@ -227,6 +228,11 @@ func newRepoWorld(row *repoRow) (*repoWorld, error) {
 			}
 		}
 	}
+	if row.Op == "clean" && len(row.Arg) > 0 && row.Arg[0] == "empty-dir" {
+		if err := os.MkdirAll(filepath.Join(rw.dir, emptyDirName, "nested"), 0o755); err != nil {
+			return nil, err
+		}
+	}
 	// reopen so that nothing of the construction is cached
 	r2, err := git.PlainOpen(rw.dir)
 	if err != nil {
@@ -235,6 +241,14 @@ func newRepoWorld(row *repoRow) (*repoWorld, error) {
 	rw.r = r2
 	rw.w, err = r2.Worktree()
 	return rw, err
+}
+
+const emptyDirName = "zz-empty"
+
+// emptyDirLeft: the empty directory tree of a clean / empty-dir row is still there
+func (rw *repoWorld) emptyDirLeft() bool {
+	_, err := os.Lstat(filepath.Join(rw.dir, emptyDirName))
+	return err == nil
 }
 
 func (rw *repoWorld) close() { os.RemoveAll(rw.dir) }
@@ -745,6 +759,9 @@ func repoCmd(args []string) error {
 				continue
 			}
 			bad := ""
+			if row.Exp.NoDir && len(row.Arg) > 0 && row.Arg[0] == "empty-dir" && rw.emptyDirLeft() {
+				bad = "worktree|empty-directory-left"
+			}
 			wantHead := row.Exp.Head
 			gotHead := post.HeadTree
 			if strings.HasSuffix(gotHead, "*") {
@@ -756,7 +773,7 @@ func repoCmd(args []string) error {
 			if wantHead == "I" {
 				headOK = post.HeadTree == "I" || (rw.treeI == rw.treeH && gotHead == "H") || (rw.treeI == rw.treeT && gotHead == "T")
 			}
-			if !headOK {
+			if !headOK && bad == "" {
 				bad = "head|want=" + wantHead + ",got=" + post.HeadTree
 			}
 			for _, p := range rw.paths {
@@ -1039,6 +1056,11 @@ func gitTwin(r *rep.Report, row *repoRow) {
 	}
 	if row.Exp.Verdict == "refuse" {
 		cs["why"] = "git succeeds where the spec demands refusal"
+		r.SpecError(cs)
+		return
+	}
+	if row.Exp.NoDir && len(row.Arg) > 0 && row.Arg[0] == "empty-dir" && rw.emptyDirLeft() {
+		cs["why"] = "git clean -d leaves the empty directory the spec says it removes"
 		r.SpecError(cs)
 		return
 	}
